@@ -50,21 +50,22 @@ def chain_of(st):
 def proj(st):
     alive = st["st"] == "alive"
     use = st["tref"] + st["tmp"] + sum(st["nh"].values()) + sum(st["cref"].values())
-    frames = sum(st["cref"].values()) + (1 if st["mode"] == "async" and st["rpc"] != "done" else 0)
+    frames = sum(st["cref"].values()) + (1 if st["mode"] == "async" and st["round"] == 1 and st["rpc"] != "done" else 0)
+    old = sum(st["old"].values())     # an assignment in progress: the previous state is still referenced
     pend = {"r": RPC[st["rpc"]]}
     for h, pc in st["pc"].items():
         pend[h] = HPC[pc]
     return {
         "st": st["st"],
-        "one": True,
+        "one": old == 0,
         "use": use if alive else 0,
-        "live": st["vlive"],
+        "live": st["vlive"] + st["oldlive"],
         "vd": st["vdtor"],
-        "heap": (1 if alive else 0) + frames,
+        "heap": (1 if alive else 0) + old + frames,
         "chain": chain_of(st) if alive else "-",
         "tag": st["tag"] if alive else "-",
         "payload": st["payload"] if alive else "-",
-        "nh": st["nh"],
+        "nh": {h: n + st["old"][h] for h, n in st["nh"].items()},
         "cref": st["cref"],
         "pend": pend,
         "resumes": st["resumes"],
@@ -72,15 +73,18 @@ def proj(st):
     }
 
 
-def constants(H, modes, kinds, co=(), bl=(), cb=(), po=(), copies=1, handles=2, variant="code", fixed=True):
+def constants(H, modes, kinds, co=(), bl=(), cb=(), po=(), copies=1, handles=2, variant="code", fixed=True, rounds=1, ways=()):
     return {"H": sset(H), "Ctor": '"%s"' % H[0], "Modes": sset(modes), "RKinds": sset(kinds), "HCo": sset(co),
             "HBl": sset(bl), "HCb": sset(cb), "HPoll": sset(po), "MaxCopies": str(copies), "MaxHandles": str(handles),
-            "Variant": '"%s"' % variant, "Fixed": "TRUE" if fixed else "FALSE"}
+            "Variant": '"%s"' % variant, "Fixed": "TRUE" if fixed else "FALSE", "MaxRounds": str(rounds), "ReArmWays": sset(ways)}
+
+
+ALL_WAYS = ["shl", "shlready", "assign"]
 
 
 def run_cfg(ctx, rp, tag, H, modes, kinds, co=(), bl=(), cb=(), po=(), copies=1, handles=2, max_paths=None,
-            must=None, env=None):
-    consts = constants(H, modes, kinds, co, bl, cb, po, copies, handles)
+            must=None, env=None, rounds=1, ways=()):
+    consts = constants(H, modes, kinds, co, bl, cb, po, copies, handles, rounds=rounds, ways=ways)
 
     def hdr(k, st0):
         return {"H": list(H), "ctor": H[0]}
@@ -91,13 +95,13 @@ def run_cfg(ctx, rp, tag, H, modes, kinds, co=(), bl=(), cb=(), po=(), copies=1,
     return res
 
 
-def broken_variant_must_fail(ctx, tag, variant, invariant):
+def broken_variant_must_fail(ctx, tag, variant, invariant, rounds=1, ways=()):
     """vacuity guard: the deliberately broken variants of the specification must violate the property"""
     sd = os.path.join(vlib.VERIF, "spec", "SharedFuture")
     cfg = os.path.join(vlib.BUILD, "C17_%s.cfg" % tag)
     vlib.write_cfg(cfg, "SPECIFICATION Spec\nINVARIANTS %s\nCHECK_DEADLOCK FALSE\n" % invariant,
                    constants(["h1"], ["fn", "late"], ["val"], co=["h1"], bl=["h1"], cb=[], po=[], copies=1, handles=2,
-                             variant=variant))
+                             variant=variant, rounds=rounds, ways=ways))
     res = vlib.run_tlc(sd, "SharedFuture", cfg, "C17_%s" % tag, workers=2, coverage=False)
     try:
         os.remove(cfg)
@@ -173,8 +177,13 @@ def run(ctx):
     # leaks are found by the replayer's own accounting (allocation balance, instance counters, state freed at the end)
     env = None if ctx.quick else asan_env
     h1, h2 = ["h1"], ["h1", "h2"]
-    broken_variant_must_fail(ctx, "v1", "notracer", "AliveWhilePending")
-    broken_variant_must_fail(ctx, "v2", "noreset", "AtEnd")
+    with ThreadPoolExecutor(max_workers=3) as ex:
+        vs = [ex.submit(broken_variant_must_fail, ctx, "v1", "notracer", "AliveWhilePending"),
+              ex.submit(broken_variant_must_fail, ctx, "v2", "noreset", "AtEnd"),
+              # operator<< charging the tracer in the first round only: the re-armed pending state dies with the handles
+              ex.submit(broken_variant_must_fail, ctx, "v3", "chargeonce", "AliveWhilePending", 2, ["shl"])]
+        for v in vs:
+            v.result()
     # mode "shl" (repaired model) is part of the regular configurations unless the tree still has the as-found operator<<
     modes = ALL_MODES + (["shl"] if check_shl(ctx, rp, env) else [])
     seq_must = ["LateInit", "GetPromise", "NullPoll", "PrePload", "PreFence", "PreFinal", "PreDload", "Copy"]
@@ -191,6 +200,12 @@ def run(ctx):
         run_cfg(ctx, rp, "c3", h2, ["fn"], ["val"], cb=["h1"], bl=["h2"], copies=2, handles=1)
         run_cfg(ctx, rp, "c4", h2, [modes[-1]], ["val"], co=["h1"], bl=["h2"], po=["h2"], copies=2, handles=2, max_paths=1200)
         tlc_only(ctx, "live", h2, ["fn", "late"], kinds, co=["h1"], bl=["h2"], cb=["h2"], copies=1, handles=1)
+        # rounds: a resolved state re-armed (operator<< pending / ready, assignment of a new shared_future) for a second
+        # and third round, copies / awaiters / drops in every round
+        run_cfg(ctx, rp, "r1", h1, ["fn", "setval"], ["val", "drop"], co=h1, copies=1, handles=2, rounds=3, ways=ALL_WAYS,
+                must=["ReArmShl", "ReArmAssign"])
+        run_cfg(ctx, rp, "r2", h2, ["fn"], ["val"], co=["h1"], bl=["h2"], copies=1, handles=1, rounds=2, ways=["shl"],
+                must=["ReArmShl"], max_paths=700)
         # sanitized replays (this one and c1; no weak_ptr probe): a touch of the state after the last reference is gone
         # aborts the replayer
         run_cfg(ctx, rp_asan, "a1", h1, ["fn", "late", "retfut", "async"], ["val", "dtor"], co=h1, cb=h1, copies=1, handles=1, env=asan_env)
@@ -209,6 +224,10 @@ def run(ctx):
         run_cfg(ctx, rp, "c5", h2, ["fn", "late"], ["val"], cb=h2, po=h2, copies=2, handles=2, env=env, max_paths=6000)
         run_cfg(ctx, rp, "c6", h2, ["init"], ["val", "dtor"], co=["h2"], bl=["h1"], po=["h2"], copies=2, handles=2, env=env, must=["GetPromise"])
         run_cfg(ctx, rp, "t3", ["h1", "h2", "h3"], ["fn"], ["val"], co=["h2"], bl=["h3"], copies=2, handles=1, env=env)
+        run_cfg(ctx, rp, "r1", h1, ["fn", "setval", "late", "retfut"], ALL_KINDS, co=h1, bl=h1, copies=1, handles=2, rounds=3,
+                ways=ALL_WAYS, env=env, max_paths=10000, must=["ReArmShl", "ReArmAssign"])
+        run_cfg(ctx, rp, "r2", h2, ["fn", "init"], ["val", "dtor"], co=["h1"], bl=["h2"], po=["h2"], copies=2, handles=1, rounds=2,
+                ways=ALL_WAYS, env=env, max_paths=10000, must=["ReArmShl"])
         # larger bounds, specification only
         tlc_only(ctx, "big", h2, ["fn"], ["val"], co=h2, bl=h2, cb=[], po=h2, copies=2, handles=2)
     ctx.assume("compare_exchange_weak does not fail spuriously (x86-64 lock cmpxchg); weak CAS is executed as strong under the controlled scheduler")
